@@ -13,6 +13,8 @@
 //!                                  seeded random; shard=i/n runs every n-th schedule, focus=a,b adds requests
 //!                                  to the family, `plan` prints the sizes; r:k pauses after, r@k before the
 //!                                  k-th acquisition
+//!   locks stress --n R             R rounds of 8 threads released together, each asking for a generated
+//!                                  channel id (or entropy): lock-free counters, no schedule control
 //!   locks race  r1:k1 r2:k2 .. rn  thread i runs request r_i and parks right after its k_i-th
 //!                                  acquisition; the last thread runs freely; then the parked ones
 //!                                  are resumed last-to-first.  Prints `@@RACE` with the observed
@@ -619,6 +621,7 @@ const KINDS: &[&str] = &[
     "approve_keysend",
     "allowlist_add",
     "new_channel",
+    "new_channel_with_random_id",
     "new_channel_existing",
     "setup_channel",
     "setup_channel_again",
@@ -780,6 +783,10 @@ fn make_req(sys: &mut Sys, kind: &str) -> Req {
     match kind {
         "new_channel" =>
             Box::new(move || replied(node.new_channel(10, &peer, &node), |(id, _)| hex::encode(id.as_slice()))),
+        "new_channel_with_random_id" => Box::new(move || {
+            // LDK-style entry point: the id comes from a lock-free counter in the key manager
+            replied(node.new_channel_with_random_id(&node), |(id, _)| hex::encode(id.as_slice()))
+        }),
         "new_channel_existing" => {
             let dbid = sys.stub_dbid;
             Box::new(move || replied(node.new_channel(dbid, &peer, &node), |(id, slot)| {
@@ -1810,6 +1817,74 @@ fn sweep(rec: &Arc<Rec>, args: &Args) {
     );
 }
 
+/// STRESS TEST (no schedule control): requests whose shared state is a lock-free counter cannot be
+/// steered by the mutex hook.  K threads are released together (spinning on a flag) and each issues
+/// one request; the round's outcome is compared with the sequential specification: every reply Ok,
+/// K pairwise distinct values, and for channel ids exactly K new stubs.
+fn stress(args: &Args) {
+    use std::sync::atomic::{AtomicBool, AtomicUsize, Ordering};
+    let k = 8usize;
+    let rounds = args.n.max(1);
+    let mut failures: Vec<Value> = vec![];
+    let (mut rounds_ids, mut rounds_rand) = (0usize, 0usize);
+    for round in 0..rounds {
+        let which = if round % 4 == 3 { "get_secure_random_bytes" } else { "new_channel_with_random_id" };
+        let mut seed = [0u8; 32];
+        seed[0] = 0xc2;
+        seed[1] = (round % 251) as u8;
+        let world = World::new(World::default_policy(), seed, KeyDerivationStyle::Native);
+        let node = world.new_node();
+        let before = node.get_channels().len();
+        let go = Arc::new(AtomicBool::new(false));
+        let ready = Arc::new(AtomicUsize::new(0));
+        let mut hs = vec![];
+        for _ in 0..k {
+            let (node, go, ready) = (node.clone(), go.clone(), ready.clone());
+            let ids = which == "new_channel_with_random_id";
+            hs.push(std::thread::spawn(move || {
+                ready.fetch_add(1, Ordering::SeqCst);
+                while !go.load(Ordering::Acquire) {
+                    std::hint::spin_loop();
+                }
+                if ids {
+                    node.new_channel_with_random_id(&node).ok().map(|(id, _)| hex::encode(id.as_slice()))
+                } else {
+                    Some(hex::encode(node.get_entropy_source().get_secure_random_bytes()))
+                }
+            }));
+        }
+        while ready.load(Ordering::SeqCst) < k {
+            std::hint::spin_loop();
+        }
+        go.store(true, Ordering::Release);
+        let replies: Vec<Option<String>> = hs.into_iter().map(|h| h.join().ok().flatten()).collect();
+        let mut distinct: Vec<&String> = replies.iter().flatten().collect();
+        distinct.sort();
+        distinct.dedup();
+        let created = node.get_channels().len() - before;
+        let ok = replies.iter().all(|r| r.is_some())
+            && distinct.len() == k
+            && (which != "new_channel_with_random_id" || created == k);
+        if which == "new_channel_with_random_id" {
+            rounds_ids += 1;
+        } else {
+            rounds_rand += 1;
+        }
+        if !ok && failures.len() < 3 {
+            failures.push(json!({"round": round, "request": which, "threads": k, "replies": replies,
+                                 "distinct_values": distinct.len(), "channels_created": created,
+                                 "expected": format!("{} Ok replies with {} pairwise distinct values{}", k, k,
+                                                     if which == "new_channel_with_random_id" { format!(" and {} new stubs", k) } else { String::new() })}));
+        }
+        if !ok && failures.len() >= 3 {
+            break;
+        }
+    }
+    emit("STRESS", json!({"rounds": rounds, "threads": k, "rounds_new_channel_with_random_id": rounds_ids,
+                          "rounds_get_secure_random_bytes": rounds_rand, "failures": failures,
+                          "kind": "stress test without schedule control, not an exploration"}));
+}
+
 fn main() {
     let argv: Vec<String> = std::env::args().skip(1).collect();
     let sub = argv.get(0).cloned().unwrap_or_default();
@@ -1824,6 +1899,7 @@ fn main() {
         "record" => record(&rec, &args.rest),
         "race" => race(&rec, &args.rest),
         "sweep" => sweep(&rec, &args),
+        "stress" => stress(&args),
         "kinds" => emit("KINDS", json!(KINDS)),
         _ => {
             eprintln!("usage: locks record|race|kinds");
